@@ -170,23 +170,36 @@ def transportOk (t : Transport) (steps : List Step) (faulted : Bool) : Bool :=
   | .serverBase => transportView steps == []
   | .wsgi => transportView steps == [.wsgiCall, if faulted then .wsgiException else .wsgiReturn, .wsgiClose]
 
-/-- everything the property says about one combination of (after_serialize flag of the output
-    protocol, transport, injected failure, listener outcomes): the run escapes exactly when the
-    transport has no handler for the failure; otherwise the automaton ends in the accepting state
-    that records what really happened -/
-def rowOk (F : Facts14) (x : Bool × Transport × Inj × Option ExcKind × Option ExcKind) : Bool :=
-  let r := runCore F x.1 x.2.1 x.2.2.1 x.2.2.2.1 x.2.2.2.2
-  let tr := truth x.2.2.1 x.2.2.2.1 x.2.2.2.2
-  (r.escaped == (tr.serFail && x.2.1 == .serverBase))
-  && descScopeOk r.steps
-  && (r.escaped || (final (methodView r.steps) == .done tr.userRan tr.returned tr.faulted
-                    && transportOk x.2.1 r.steps tr.faulted))
+/-- one row of the table: does the output protocol leave ctx.out_string None for the method's result /
+    for a fault, the transport, the failing stage and the kind of exception, what firing method_call /
+    method_return_object raises -/
+structure Row where
+  noneOk : Bool
+  noneErr : Bool
+  transport : Transport
+  stage : Stage
+  kind : ExcKind
+  co : Option ExcKind
+  ro : Option ExcKind
+  deriving DecidableEq, Repr
+
+/-- everything the property says about one row: the run escapes exactly when the transport has no
+    handler for the failure; otherwise the automaton ends in the accepting state that records what
+    really happened (the protocols' own events, the slots of the skeleton, play no part) -/
+def rowOk (F : Facts14) (x : Row) : Bool :=
+  let r := skeleton F x.noneOk x.noneErr x.transport x.stage x.kind x.co x.ro
+  let steps := unslot r.steps
+  let tr := truth ⟨x.stage, x.kind, false⟩ x.co x.ro
+  (r.escaped == (tr.serFail && x.transport == .serverBase))
+  && descScopeOk steps
+  && (r.escaped || (final (methodView steps) == .done tr.userRan tr.returned tr.faulted
+                    && transportOk x.transport steps tr.faulted))
 
 /-! ### finite enumerations (for whole-table proofs) -/
 
 def allEvent : List Event :=
   [.created, .call, .returnObject, .exceptionObject, .returnDocument, .exceptionDocument, .returnString,
-   .exceptionString, .closed, .beforeDeserialize, .afterDeserialize, .beforeSerialize, .afterSerialize,
+   .exceptionString, .closed, .beforeDeserialize, .afterDeserialize, .beforeSerialize, .afterSerialize, .serialize,
    .wsgiCall, .wsgiReturn, .wsgiException, .wsgiClose, .other]
 def allSym : List Sym := .user :: allEvent.map .ev
 def allTransport : List Transport := [.serverBase, .wsgi]
@@ -196,11 +209,10 @@ def allOptKind : List (Option ExcKind) := [none, some .fault, some .exc]
 def allInj : List Inj :=
   allStage.flatMap fun s => allKind.flatMap fun k => [true, false].map fun b => ⟨s, k, b⟩
 
-abbrev Row := Bool × Transport × Inj × Option ExcKind × Option ExcKind
-
 def allRows : List Row :=
-  [true, false].flatMap fun a => allTransport.flatMap fun t => allInj.flatMap fun i =>
-    allOptKind.flatMap fun co => allOptKind.map fun ro => (a, t, i, co, ro)
+  [true, false].flatMap fun a => [true, false].flatMap fun b => allTransport.flatMap fun t =>
+    allStage.flatMap fun st => allKind.flatMap fun k => allOptKind.flatMap fun co => allOptKind.map fun ro =>
+      ⟨a, b, t, st, k, co, ro⟩
 
 /-- all traces of length ≤ `n` that lead from `q` to an accepting state, with that state -/
 def lang : Nat → Q → List (List Sym × Q)
